@@ -37,7 +37,17 @@ def main():
         out = core.Outcome()
         replay = json.load(open(args.replay)) if args.replay else None
         if build_ok:
-            mod.run(ctx, out, replay)
+            try:
+                mod.run(ctx, out, replay)
+            except Exception as e:      # noqa: BLE001
+                # the harness could not process what the implementation did (on /repo this never happens; on a changed
+                # tree it means the behaviour left what the correspondence can express): fail closed with a proper
+                # verdict instead of a traceback - the correspondence no longer checks
+                import traceback
+                out.disagreements.append({
+                    "key": f"{pid}/harness-exception", "explained": False,
+                    "why": f"the correspondence harness raised {type(e).__name__}: {str(e)[:300]}",
+                    "case": {"traceback": traceback.format_exc()[-3000:]}})
         else:
             # the model cannot be evaluated: still run the direct oracle on the implementation
             if hasattr(mod, "run_oracle_only"):
